@@ -423,7 +423,24 @@ def sweep_strategy(tier, classes=None, weights=None):
         if classes is None or c in classes:
             names += [c] * w
     # one_of() collapses repeated branches, so weight by an explicit index draw
-    return st.integers(0, len(names) - 1).flatmap(lambda i: S[names[i]])
+    base = st.integers(0, len(names) - 1).flatmap(lambda i: S[names[i]])
+
+    def modify(pair):
+        # about a third of the draws carry ONE modifier: another driver style, another way of writing
+        # the constructor call, NumPy integer arguments (the boxes cover each modifier on small configs;
+        # here they meet the whole parameter range)
+        cfg, m = pair
+        cfg = dict(cfg)
+        mods = {0: ("iter", True), 1: ("iter", "loops"), 2: ("blind", True), 3: ("style", "kw"), 4: ("style", "kwr"), 5: ("style", "pkr"),
+                6: ("style", "dflt"), 7: ("style", "ci"), 8: ("style", "npf"), 9: ("np", True)}
+        if m in mods:
+            k, v = mods[m]
+            if v in ("ci", "npf") and "c8" not in cfg:
+                v = "kw"
+            if not (k == "style" and cfg["cls"] in ("None", "SingleMemory")):
+                cfg[k] = v
+        return cfg
+    return st.tuples(base, st.integers(0, 29)).map(modify)
 
 
 def generate(strategy, count, seed):
